@@ -58,8 +58,9 @@ structure Cfg where
 
 def Cfg.pinned : Cfg := ⟨false, false, false⟩
 def Cfg.repaired : Cfg := ⟨true, true, true⟩
-/-- the code that /repo contains now -/
-def Cfg.current : Cfg := Cfg.pinned
+/-- the code that /repo contains now: the mul repair (1280e04) and the div repair (6b82196) are in,
+    `propagate_comparison` is unchanged -/
+def Cfg.current : Cfg := ⟨true, true, false⟩
 
 /-- concretisation: `v ∈ [lo, hi]` with a NULL endpoint meaning "unbounded on that side" -/
 def mem (v : Int) (a : Iv) : Prop :=
